@@ -217,7 +217,9 @@ static QDomElement symItem(PushItem &pi)
 
 // iq (type, id, from?) > query xmlns=jabber:iq:roster > <= 2 item
 struct SymIq { QDomElement iq; bool isSet; QString type, id; bool hasFrom; QString from; int nitems; PushItem item[2]; };
-static void symRosterIq(SymIq &q, bool hasFrom)
+// The SHAPE of the tree (from present?, number of items) is fixed per entry point: a symbolic shape makes every node
+// pointer of the DOM model a case split.  All contents are symbolic.
+static void symRosterIq(SymIq &q, bool hasFrom, int n)
 {
     q.iq = el(L("iq"), L("jabber:client"));
     q.type = vpSymString(6);                           // any type attribute: set, get, result, error, empty, junk
@@ -227,13 +229,9 @@ static void symRosterIq(SymIq &q, bool hasFrom)
     q.hasFrom = hasFrom;
     if (hasFrom) { q.from = vpSymString(FROM_MAX); attr(q.iq, L("from"), q.from); }
     QDomElement query = el(L("query"), L("jabber:iq:roster"));
-    unsigned n = vp_u8(); vp_assume(n <= 2);
-    q.nitems = int(n);
-    for (unsigned i = 0; i < 2; i++) {
-        if (i >= n) break;
-        QDomElement it = symItem(q.item[i]);
-        vp_dom_append(&query, &it);
-    }
+    q.nitems = n;
+    if (n > 0) { QDomElement it = symItem(q.item[0]); vp_dom_append(&query, &it); }
+    if (n > 1) { QDomElement it = symItem(q.item[1]); vp_dom_append(&query, &it); }
     vp_dom_append(&q.iq, &query);
 }
 static void symOwnJid()
@@ -245,13 +243,13 @@ static void symOwnJid()
 }
 
 // ------------------------------------------------------------------------------------------------ (1) unauthorised push
-extern "C" void h_push_unauth()
+static void pushUnauth(int nitems)
 {
     symOwnJid();
     Mgr m; RefRoster ref;
     symRoster(m.d, ref);
     const bool recv = m.d->isRosterReceived;
-    SymIq q; symRosterIq(q, true);
+    SymIq q; symRosterIq(q, true, nitems);
     vp_assume(!refAuthorised(q.hasFrom, q.from, g_ownBare));
     bool r = m->QXmppRosterManager::handleStanza(q.iq);
     vp_assert(!r, "C12 roster IQ from an unauthorised sender is not accepted (handleStanza returns false)");
@@ -260,3 +258,5 @@ extern "C" void h_push_unauth()
     vp_assert(m.d->isRosterReceived == recv, "C12 roster IQ from an unauthorised sender leaves the received flag alone");
     checkRoster(m.d, ref);
 }
+extern "C" void h_push_unauth_n1() { pushUnauth(1); }
+extern "C" void h_push_unauth_n2() { pushUnauth(2); }
